@@ -70,7 +70,7 @@ func cmdC11(args []string) int {
 				if a != b {
 					st.violate(violation{Kind: name, Case: i,
 						Detail: map[string]any{"relation": name, "pattern": pat, "haystack": short(s, 400), "haystack_hex": short(fmt.Sprintf("%x", h), 800), "haystack_len": len(h), "strategy": strat, "left": short(a, 300), "right": short(b, 300)},
-						Sig: fmt.Sprintf("%s pat=%q hay=%s left=%s right=%s", name, pat, sigHash(s), short(a, 60), short(b, 60)), Expected: a, Got: b, RC: name + "/" + strat})
+						Sig:    fmt.Sprintf("%s pat=%q hay=%s left=%s right=%s", name, pat, sigHash(s), short(a, 60), short(b, 60)), Expected: a, Got: b, RC: name + "/" + strat})
 				}
 			}
 			fi := re.FindIndex(h)
